@@ -166,14 +166,18 @@ def ref_read(by: bytes):
 NAMES = ['COND', 'SN  ', 'SP  ', 'GR  ', 'CAL ', 'TEN ', 'SPD ', 'ACQ ', 'AC  ', 'RT  ', 'DEPT', 'TIME', 'RHOB', 'NPHI', 'A   ']
 
 
-def gen_pass(rng, max_frames=60, names_pool=None):
+def gen_pass(rng, max_frames=60, names_pool=None, long=False):
     pool = list(names_pool or NAMES)
     nch = rng.wpick([(2, 1), (5, rng.randrange(2, 7)), (2, rng.randrange(5, 13)), (1, 20)])
+    if long:
+        nch = min(nch, 2)
     rng.shuffle(pool)
     while len(pool) < nch:
         pool.append('C%03d' % len(pool))
     names = pool[:nch]
     frames = rng.wpick([(1, 1), (2, rng.randrange(2, 5)), (5, rng.randrange(min(3, max_frames), max_frames + 1))])
+    if long:
+        frames = max_frames
     block = rng.wpick([(4, 16), (2, rng.randrange(1, 9)), (2, rng.randrange(1, 40))])
     up = rng.chance(0.5)
     sp = rng.pick([0.25, 0.5, 0.125, 1.0, 0.1, 2.0, 0.0625])
@@ -190,6 +194,6 @@ def gen_pass(rng, max_frames=60, names_pool=None):
             'from': ibm_encode(start), 'to': ibm_encode(stop), 'spacing': ibm_encode(sp), 'block': block, 'values': values}
 
 
-def gen_model(rng, max_passes=3, max_frames=60, names_pool=None):
-    n = rng.wpick([(5, 1), (3, 2), (1, max_passes)])
-    return {'passes': [gen_pass(rng, max_frames, names_pool) for _ in range(n)]}
+def gen_model(rng, max_passes=3, max_frames=60, names_pool=None, long=False):
+    n = rng.wpick([(5, 1), (3, 2), (1, max_passes)]) if not long else 1
+    return {'passes': [gen_pass(rng, max_frames, names_pool, long) for _ in range(n)]}
